@@ -891,6 +891,7 @@ func (ex *Exec) external(s *State, fr *Frame, c *ssa.Call, full string, f *ssa.F
 		s.assume(Or(Eq(r, IntC(-1)), Eq(r, IntC(0)), Eq(r, IntC(1))))
 		s.assume(Eq(Eq(r, IntC(0)), ex.bytesEqual(s, a, b)))
 		s.assume(Eq(ICmp("<", r, IntC(0)), ex.lexLess(s, a, b)))
+		s.assume(Eq(ICmp(">", r, IntC(0)), ex.lexLess(s, b, a))) // totality of the lexicographic order
 		return ex.fromIdx(r), true
 	case "bytes.HasPrefix":
 		note()
@@ -1095,6 +1096,17 @@ func (ex *Exec) abstractCall(s *State, fr *Frame, c *ssa.Call, fv FuncV, args []
 		}
 		caller := normName(fr.fn.RelString(ex.prog.SSA.Pkg))
 		ex.emit(s, "protocol", fmt.Sprintf("D/%s/protocol/no_call_after_false@%s", caller, ex.anchor(c.Pos())), Not(stopped.T), c.Pos(), "yield is not called again after it returned false")
+		if fr.top && ex.contract != nil {
+			// what the sequence may deliver: clauses over the closure's state at the yield call
+			env := &SpecEnv{ex: ex, cur: s, old: fr.entry, vars: map[string]Value{}, fn: fr.fn, fr: fr}
+			for i, yr := range ex.contract.YieldRequires {
+				label := yr.Label
+				if label == "" {
+					label = fmt.Sprintf("yield_requires#%d", i+1)
+				}
+				ex.emit(s, "requires", fmt.Sprintf("D/%s/%s@%s", caller, label, ex.anchor(c.Pos())), env.evalProve(yr.Expr), c.Pos(), yr.Src)
+			}
+		}
 		r := ex.st.Fresh("yield.ret", SBool)
 		s.ghost["stopped"] = BoolV{T: Or(stopped.T, Not(r))}
 		n, _ := s.ghost["yields"].(IntV)
